@@ -231,7 +231,7 @@ func applyCase(a, b rawCfg, t []string) string {
 				// empty ISTIO chain this configuration declares (-N) but never puts a rule into - buildCleanupRules only
 				// flushes and deletes chains that own a rule
 				if only := jumpTargetOnlyLeftovers(base, sim, cb); only != "" {
-					return "OBS apply:cleanup-leaves-jump-target-only-chain " + class + " chains=" + only
+					return "KNOWN c20:cleanup-leaves-jump-target-only-chain " + class + " chains=" + only
 				}
 				return "FAIL apply:cleanup-only-leftovers " + class + " state=" + det(after)
 			}
